@@ -4,6 +4,9 @@ import json, os
 V = os.path.dirname(os.path.dirname(os.path.abspath(__file__)))
 TECH = "contract-based deductive verification: VCs generated from the real Python AST (pyvc) against sidecar contracts, discharged by z3/cvc5; counterexamples replayed natively"
 CLAIMS = {
+ "C04": dict(ref="§4 C04",
+   text="Proof (any number of components, every subset of free parameters): each row appended by jacobian equals the mathematical partial derivative of elliptical_gaussian's own expression w.r.t. that parameter (theta per degree), rows are in component-major documented order (loop invariant over the ghost index IDX), only varying parameters get rows; lmfit_jacobian = transpose((J/errs).B); covar_errors assigns stderr(i,p) = onesigma[IDX(i)+rank(i,p)] (loop invariant), leaves other stderr untouched, and composes the Fisher matrix as J^T inv(C) J or (JB)^T(JB).",
+   note="floats as reals; numpy elementwise ops pointwise (generic pixel); linear algebra calls as structural matrix terms (inv/dot/diag/sqrt contracts assumed); derivative identities decided by the pyvc ring normaliser + z3"),
  "C15": dict(ref="§4 C15",
    text="Proof for all shapes>=2 and factors>=1 (CDELT or CD headers): compress stores the decimation rows/cols and the documented header; expand∘compress never violates a RegularGridInterpolator precondition, restores shape, CRPIX, CDELT/CD, removes BN_*, and places every stored row k<nx at its true original row k*f (⇒ exact at nodes, complete cells interpolated between true corners); invalid factor ⇒ None; uncompressed input returned unchanged.",
    note="RegularGridInterpolator exactness/range/bilinearity, numpy slicing algebra, astropy header mapping assumed; float32 cast not modelled; floats as reals"),
